@@ -13,12 +13,16 @@ for n in sorted(os.listdir(S)):
     q = runs.get("quick", {}).get(m["property"], {})
     sig = q.get("first_signature", "").replace("signature: ", "")
     others = {p: r["rc"] for p, r in runs.get("quick", {}).items() if p != m["property"]}
-    rows.append((n, m["property"], m.get("summary", "")[:170], m.get("needs", "")[:140], "VIOLATION" if q.get("rc") == 1 else ("held" if q.get("rc") == 0 else str(q.get("rc"))), sig[:140], m.get("origin", "sub-agent")))
+    verdict = "VIOLATION" if q.get("rc") == 1 else ("held" if q.get("rc") == 0 else ("inconclusive" if q.get("rc") == 3 else str(q.get("rc"))))
+    if m.get("caught_by_other"):
+        verdict += " (caught elsewhere)"
+        sig = m["caught_by_other"]
+    rows.append((n, m["property"], m.get("summary", "")[:170], m.get("needs", "")[:140], verdict, sig[:400], m.get("origin", "sub-agent")))
 out = ["# Seeded changes and the checks that catch them", "",
        "Every change compiles, passes the 221 tests + 10 doctests, and breaks the named property (confirmed by `lib/seeded.py confirm`).",
-       "`quick` = verdict of `./check <property> quick` with the change applied to /repo (then reverted).", "",
+       "`quick` = verdict of `./check <property> quick` with the change applied (final regression run over all changes on a scratch copy of the final tree, `notes/matrix_final.log`).", "",
        "| change | property | what was changed | needs | quick | first violation signature |", "|---|---|---|---|---|---|"]
 for r in rows:
-    out.append(f"| {r[0]} | {r[1]} | {r[2]} | {r[3]} | {r[4]} | `{r[5]}` |")
+    out.append(f"| {r[0]} | {r[1]} | {r[2]} | {r[3]} | {r[4]} | {r[5] if 'elsewhere' in r[4] else '`' + r[5] + '`'} |")
 open(os.path.join(S, "RESULTS.md"), "w").write("\n".join(out) + "\n")
 print(len(rows), "changes;", sum(1 for r in rows if r[4] == "VIOLATION"), "caught by quick")
